@@ -28,6 +28,7 @@ COMMON_ASSUMPTIONS = [
     "generic code is verified per listed instantiation (constraint set x backend x element type)",
     "CBMC pointer model: each allocation is its own object; pointer->integer casts treat object bases as maximally aligned",
     "heap capacities are concrete per query (enumerated by the driver), lengths/indices/payloads are symbolic",
+    "Kani's per-assertion reachability checks are off (--no-assertion-reach-checks); non-vacuity is decided per harness by its REACHED-END cover (must be SATISFIED) or, for must-panic harnesses, by the expected panic being reachable",
 ]
 
 
